@@ -73,10 +73,16 @@ func c19Cfg(name string, version int) v1.ProxyConfigurer {
 		// the registration message is the same, the proxy must be restarted all the same
 		c.LocalPort, c.RemotePort = 80+version, 6000
 	}
+	if c19DiffPlugin {
+		// ... or only in the options of the client plugin that serves as backend
+		c.RemotePort = 6000
+		c.Plugin.Type = v1.PluginUnixDomainSocket
+		c.Plugin.ClientPluginOptions = &v1.UnixDomainSocketPluginOptions{Type: v1.PluginUnixDomainSocket, UnixPath: []string{"/run/s0", "/run/s1", "/run/s2", "/run/s3"}[version%4]}
+	}
 	return c
 }
 
-var c19DiffLocal bool
+var c19DiffLocal, c19DiffPlugin bool
 
 type c19Entry struct {
 	name    string
@@ -124,7 +130,13 @@ func VerifC19ProxyUpdate() {
 	pm := NewManager(context.Background(), &v1.ClientCommonConfig{}, tr, nil)
 	reloads := zzverif.Param("reloads", 2)
 	maxLen := zzverif.Param("maxLen", 3)
-	c19DiffLocal = zzverif.Bool("versionsDifferOnlyInTheLocalBackend")
+	c19DiffLocal, c19DiffPlugin = false, false
+	switch zzverif.Choice("versionsDifferIn", 3) {
+	case 1:
+		c19DiffLocal = true
+	case 2:
+		c19DiffPlugin = true
+	}
 	var prev []c19Entry
 	for r := 0; r < reloads; r++ {
 		cur := c19List(maxLen)
